@@ -314,15 +314,24 @@ def boundary_histories(ctx):
 # ------------------------------------------------------------------------------------------------
 # whole simulations
 # ------------------------------------------------------------------------------------------------
+WIDE_TAGS = ["followup", "delays", "freq", "months", "years", "coverage", "workday", "crews", "sims"]
+
+
 def _whole_one(args):
-    seed, k = args
+    seed, k, wide = args
     from harness import wholerun
     rng = random.Random(seed * 7919 + k)
     # execution modes: odd runs go through the process pool with two simulations (two simulations per
     # worker / pickled programs), even runs are sequential (debug) with one simulation
     pool = k % 2 == 1
-    cfg = wholerun.make_config(rng, n_sims=2 if pool else 1)
-    if k % 4 == 0 and "AIR" in cfg.get("methods", {}):
+    if wide is None:
+        cfg = wholerun.make_config(rng, n_sims=2 if pool else 1)
+    else:
+        # "wide" configurations: leaves / boundary values the base generator never draws (proportion 0 / 0.07,
+        # threshold 100 / 0.125, delay 30 / 1, instant threshold below the threshold, stationary windows,
+        # reporting delay 30, crew_count 0, single months, deployment years, coverage 0, ...)
+        cfg = wholerun.make_config(rng, n_sims=2 if pool else 1, wide=wide)
+    if wide is None and k % 4 == 0 and "AIR" in cfg.get("methods", {}):
         # stress configuration of the follow-up chain: weekly screening surveys that do not fit into the
         # crew's day (completed on a later day than started), a reporting delay, a follow-up delay during
         # which sites are screened again (null re-screenings when an emission has ended), filter recent
@@ -334,7 +343,8 @@ def _whole_one(args):
     res = wholerun.run_config(cfg, debug=not pool, processes=2 if pool else 1, trace=True)
     try:
         out = {"cfg": cfg, "rc": res.rc if hasattr(res, "rc") else None, "log": (res.log or "")[-2000:]
-               if hasattr(res, "log") else "", "traces": res.trace, "pool": pool}
+               if hasattr(res, "log") else "", "traces": res.trace, "pool": pool,
+               "wide": wide, "wide_applied": cfg.get("wide_applied", [])}
         return out
     finally:
         res.cleanup()
@@ -383,8 +393,61 @@ def check_trace(cfg, tr):
             return float(numpy.average(rates))
         return rates[-1]
 
+    from fractions import Fraction
+    first_cand = {m: None for m in screening}     # first day with a non-empty pool since the last decision
+    decided_today = {m: None for m in screening}  # (day, kept sites) of the decision of the current update
+    has_dec = any(ev[0] == "fudec" for ev in tr["events"])
+    if not has_meas:
+        stats["skipped:no-measurement-events"] = 1
+    if not has_dec:
+        stats["skipped:no-decision-events"] = 1
+
+    def mean_last(w, rates):
+        if not w or len(rates) < w:
+            return 0
+        return sum(rates[len(rates) - w:]) / w
+
     for ev in tr["events"]:
         kind = ev[0]
+        if kind == "fudec":
+            _, day, m, pool, cnt, kept = ev[:6]
+            if m not in screening or pool is None:
+                stats["skipped:decision-unreadable"] = stats.get("skipped:decision-unreadable", 0) + 1
+                continue
+            stats["decisions"] = stats.get("decisions", 0) + 1
+            fu_ = meths[m]["follow_up"]
+            if first_cand[m] is None and pool:
+                first_cand[m] = day
+            det = {"event": ev[:3], "pool": pool[:12], "kept": kept[:12], "counter": cnt, "first_candidate_day": first_cand[m],
+                   "follow_up": fu_}
+            if pool and (first_cand[m] is None or day - first_cand[m] < int(fu_["delay"])):
+                viol.append(("C09:whole:before-delay", "a flagging decision was taken before the follow-up delay after the "
+                             "first candidate had passed", det))
+            # proportion: exact decimal arithmetic on the configured value, as a user writes it
+            p_ = Fraction(str(fu_["proportion"]))
+            n_ = len(pool)
+            base = n_ if fu_["interaction_priority"] == "threshold" else cnt
+            k_ = max(0, min(-((-(p_ * base).numerator) // (p_ * base).denominator), n_))
+            rates_ = [x[1] for x in pool]
+            if any(rates_[j] < rates_[j + 1] for j in range(len(rates_) - 1)):
+                viol.append(("C09:whole:proportion:pool-order", "the candidate pool is not sorted by decreasing rate", det))
+            if len(kept) > k_:
+                viol.append(("C09:whole:proportion:count", "a decision kept more than ceil(proportion x n) candidates "
+                             "(%d of %d, proportion %s)" % (len(kept), n_, fu_["proportion"]), det))
+            elif kept != pool[:len(kept)]:
+                viol.append(("C09:whole:proportion:not-largest", "the kept candidates are not the largest ones", det))
+            elif len(kept) < k_:
+                viol.append(("C09:whole:proportion:fewer", "a decision kept fewer candidates than min(ceil(p x n), |pool|)", det))
+            decided_today[m] = (day, {x[0] for x in kept})
+            first_cand[m] = None
+            continue
+        if kind == "fupool":
+            _, day, m, pool = ev[:4]
+            if m in screening:
+                dd_ = decided_today.get(m)
+                if first_cand[m] is None and pool and not (dd_ and dd_[0] == day):
+                    first_cand[m] = day
+            continue
         if kind == "sitemeas":
             _, day, method, site, rate, sday = ev[:6]
             if method in screening:
@@ -444,6 +507,43 @@ def check_trace(cfg, tr):
                     viol.append(("C09:whole:wrong-follow-up-schedule", "a screening method queued a site on a follow-up "
                                  "schedule that is not the one of its preferred follow-up method", {"event": ev}))
                 info = {"day": day, "by": by, "rate": rate, "latest": latest, "entry": entry}
+                if kind == "fuflag" and has_dec and entry == "add_to_survey_queue" and site not in outstanding:
+                    dd_ = decided_today.get(by)
+                    if not dd_ or dd_[0] != day:
+                        viol.append(("C09:whole:flag-without-decision", "a site was flagged through the pool on a day "
+                                     "without a flagging decision", {"event": ev}))
+                    elif site not in dd_[1]:
+                        viol.append(("C09:whole:proportion:flagged-not-kept", "a site outside the kept candidates was "
+                                     "flagged", {"event": ev, "kept": sorted(dd_[1])}))
+                if kind == "fuflag" and has_meas and meths[by]["deployment_type"] == "stationary":
+                    # rolling means over the configured windows, recomputed from the newest n due measurements
+                    n_ = ev[7]
+                    seq = processed(by, site, day)
+                    stats["history_checks"] += 1
+                    fu_ = meths[by]["follow_up"]
+                    rol = fu_["rolling"]
+                    if n_ > len(seq) or n_ < 1:
+                        viol.append(("C09:whole:filtered-rate:history", "the detections behind a follow-up queue insertion "
+                                     "are not the newest due measurements of the site", {"event": ev, "due": seq[-6:]}))
+                    else:
+                        suf = seq[len(seq) - n_:]
+                        short = 0 if n_ == 1 else mean_last(int(rol["small_window"]), suf)
+                        long_ = 0 if n_ == 1 else mean_last(int(rol["large_window"]), suf)
+                        inst_ = fu_.get("instant_threshold")
+                        if short != rate:
+                            viol.append(("C09:whole:filtered-rate:rolling", "the rate behind a follow-up queue insertion is "
+                                         "not the rolling mean over the small window of the newest due measurements",
+                                         {"event": ev, "recomputed": short, "due": suf[-8:], "rolling": rol}))
+                        elif site not in outstanding:
+                            if entry == "add_to_survey_queue":
+                                lthr = rol.get("large_window_threshold")
+                                if not (short >= rol["small_window_threshold"] or (lthr and long_ and long_ >= lthr)):
+                                    viol.append(("C09:whole:flag-below-threshold", "site flagged although neither rolling "
+                                                 "mean reaches its threshold", {"event": ev, "short": short, "long": long_,
+                                                                              "rolling": rol}))
+                            elif inst_ is None or short < inst_:
+                                viol.append(("C09:whole:flag-below-threshold:instant", "site bypassed the pool below the "
+                                             "instant threshold", {"event": ev, "short": short, "instant_threshold": inst_}))
                 if kind == "fuflag" and has_meas and meths[by]["deployment_type"] == "mobile":
                     # the rate behind the insertion, recomputed from the screening history itself: the newest
                     # n due, non-stale measurements of the site (zero measurements included)
@@ -459,6 +559,10 @@ def check_trace(cfg, tr):
                             and filtered(by, seq[len(seq) - n_:]) < fu_["threshold"]:
                         viol.append(("C09:whole:flag-below-threshold", "site flagged below the follow-up threshold",
                                      {"event": ev, "due_measurements": seq[-6:]}))
+                    elif entry != "add_to_survey_queue" and site not in outstanding \
+                            and (fu_.get("instant_threshold") is None or rate < fu_["instant_threshold"]):
+                        viol.append(("C09:whole:flag-below-threshold:instant", "site bypassed the pool below the instant "
+                                     "threshold", {"event": ev, "instant_threshold": fu_.get("instant_threshold")}))
                 if latest is not None:
                     if latest + rd[by] > day:
                         viol.append(("C09:whole:before-reporting-delay", "flag earlier than the reporting delay after the "
@@ -493,12 +597,19 @@ def wholerun_oracle(ctx):
         ctx.note("whole-run stage skipped: harness/wholerun.py absent")
         return
     n = ctx.pick(2, 12)
-    jobs = [(ctx.seed, k) for k in range(n)]
-    with concurrent.futures.ThreadPoolExecutor(max_workers=ctx.pick(2, 8)) as ex:
+    jobs = [(ctx.seed, k, None) for k in range(n)]
+    # wide configurations: one with every tag, the others with the tags that touch the follow-up chain
+    nw = ctx.pick(3, 10)
+    jobs += [(ctx.seed, 100 + k, True if k == 0 else (["followup"] if k % 3 == 1 else WIDE_TAGS)) for k in range(nw)]
+    with concurrent.futures.ThreadPoolExecutor(max_workers=ctx.pick(5, 8)) as ex:
         results = list(ex.map(_whole_one, jobs))
     tot = {"fu_visits": 0, "flags": 0, "fuq": 0, "snapshots": 0, "multiday_screenings": 0, "history_checks": 0}
     for out in results:
         ctx.count("whole:mode:" + ("pool" if out["pool"] else "debug"))
+        if out["wide"] is not None:
+            ctx.count("whole:wide_runs")
+            for a in out["wide_applied"]:
+                ctx.count("whole:wide:%s:%s=%s" % (a["tag"], ".".join(map(str, a["path"][1:])), json.dumps(a["value"])))
         if not out["traces"]:
             # a crash of the simulator is a broken obligation (with the configuration as replay input),
             # the other runs are still evaluated
@@ -518,7 +629,8 @@ def wholerun_oracle(ctx):
         ctx.count("whole:" + k, v)
     if tot["fu_visits"] == 0 or tot["flags"] == 0:
         ctx.note("whole-run stage: no follow-up activity in the generated configurations (vacuous)")
-    ctx.extra["whole_runs"] = n
+    ctx.extra["whole_runs"] = n + nw
+    ctx.extra["whole_wide_runs"] = nw
 
 
 def run(ctx):
